@@ -56,6 +56,10 @@ def gen_sequence(rng, profile, length):
                 H[t] = (rng.next() & ~0xFFF) | (const & 0xFFF)
             elif profile == "wrap":        # homes near the end of the array for every capacity
                 H[t] = (rng.next() & ~0xFFFF) | (0xFFFF - rng.below(3))
+            elif profile == "special":     # hash values with a special bit pattern: zero / all ones in the low or high half, single bits, 0 itself
+                pats = [0, 1 << 32, 0xFFFFFFFF00000000, 0x00000000FFFFFFFF, 0xFFFFFFFFFFFFFFFF, 1 << 63, (rng.next() & 0xFFFFFFFF) << 32,
+                        (rng.next() & 0xFFFF) << 48, rng.next() & 0xFFFFFFFF, (rng.next() | 1) << 32 & 0xFFFFFFFFFFFFFFFF]
+                H[t] = rng.choice(pats) if rng.chance(2, 3) else rng.next()
             elif profile == "few":         # hashes from a tiny set
                 H[t] = (const + rng.below(3)) & 0xFFFFFFFFFFFFFFFF
             else:
@@ -97,7 +101,7 @@ def correspondence(ctx, model_ok=True):
     failures = []
     broken = []
     n_cases = 1200 if ctx.thorough else 80
-    profiles = ["full", "lowbits", "wrap", "few", "random"]
+    profiles = ["full", "lowbits", "wrap", "few", "random", "special"]
     seqs = []
     for i in range(n_cases):
         prof = profiles[i % len(profiles)]
@@ -232,7 +236,7 @@ def correspondence(ctx, model_ok=True):
     progs = []
     n_c = 1800 if ctx.thorough else 120
     for i in range(n_c):
-        progs.append(route_program(rng.fork("c%d" % i)) if i % 3 else route_program_values(rng.fork("v%d" % i)))
+        progs.append(route_program_chars(rng.fork("h%d" % i)) if i % 4 == 1 else (route_program(rng.fork("c%d" % i)) if i % 3 else route_program_values(rng.fork("v%d" % i))))
     c_lines = [vlib.case_line("c%d" % i, ["S:" + vlib.hx(p)], steps=2000000) for i, p in enumerate(progs)]
     for mode in (["default", "always"] if ctx.thorough else ["default"]):
         rl = [l.replace(" steps=", " gc=%s steps=" % mode) for l in c_lines]
@@ -246,7 +250,7 @@ def correspondence(ctx, model_ok=True):
     cov = {
         "evaluations": len(seqs) + n_b + n_c,
         "distinct_nontrivial": len(nontrivial),
-        "rule": "op sequences over a random hash function H of 5 profiles (identical full hashes, equal low 12 bits, "
+        "rule": "op sequences over a random hash function H of 6 profiles (special bit patterns - zero/ones halves, single bits, 0 -, identical full hashes, equal low 12 bits, "
                 "homes at the array end, 3 hash values, random) with repeated texts; non-trivial = >=3 distinct texts and "
                 "at least one repeat; plus interpreter-level identity runs and route programs",
         "samples": [json.loads(s) for s in sorted(nontrivial)[:2]] + [progs[0]],
@@ -307,6 +311,35 @@ def route_program(rng):
                "if m.get(x) != 1 { bad = \"get\"; } if !m.has_key(x) { bad = \"has\"; } "
                "m.insert(x, 1); if x == %s { bad = \"eq-other\"; } if m.has_key(%s) { bad = \"other-key\"; } }" % (yl_str(other), yl_str(other)))
     src.append("if m.len() != 1 { bad = \"len\"; }")
+    src.append("if bad == nil { print(\"ok\"); } else { print(bad); }")
+    return "\n".join(src)
+
+
+def route_program_chars(rng):
+    """Single characters obtained by indexing, iteration, slicing and literals - over an alphabet in which DIFFERENT characters share
+    their UTF-8 lead byte (é è ê: C3; € ₭ ₮: E2 82; 😀 😁: F0 9F 98): equal exactly when the same character, also as map keys."""
+    alpha = ["a", "b", "é", "è", "ê", "€", "₭", "₮", "😀", "😁", "ß", "à"]
+    n = 2 + rng.below(6)
+    cs = [rng.choice(alpha) for _ in range(n)]
+    t = "".join(cs)
+    offs = []
+    o = 0
+    for c in cs:
+        offs.append(o)
+        o += len(c.encode("utf-8"))
+    src = ["var s = %s;" % yl_str(t), "var byidx = [];", "var bylit = [];", "var byslice = [];"]
+    for c, off in zip(cs, offs):
+        src.append("byidx.push(s[%d]);" % off)
+        src.append("bylit.push(%s);" % yl_str(c))
+        src.append("byslice.push(s[%d..%d]);" % (off, off + len(c.encode("utf-8"))))
+    src.append("var byiter = []; for c in s { byiter.push(c); }")
+    src.append("var bad = nil;")
+    src.append("var i = 0; while i < %d { var j = 0; while j < %d {" % (n, n))
+    src.append("  var same = bylit[i] == bylit[j];")
+    src.append("  for a in [byidx, byiter, byslice] { for b in [byidx, byiter, byslice, bylit] { if (a[i] == b[j]) != same { bad = \"eq ${i} ${j}\"; } } }")
+    src.append("  var m = {byidx[i]: 1}; if m.has_key(byiter[j]) != same { bad = \"key ${i} ${j}\"; } if m.has_key(bylit[j]) != same { bad = \"litkey ${i} ${j}\"; }")
+    src.append("  j = j + 1; } i = i + 1; }")
+    src.append("if byiter.len() != %d { bad = \"len\"; }" % n)
     src.append("if bad == nil { print(\"ok\"); } else { print(bad); }")
     return "\n".join(src)
 
